@@ -109,6 +109,10 @@ func (x *Exec) world(task string, op Op) {
 		}
 	case OpRmRF:
 		x.rmrf(op.P)
+	case OpLeaveRm:
+		if err = os.Chdir(".."); err == nil {
+			x.rmrf(op.P)
+		}
 	case OpYield:
 	}
 	x.sim.Dirty = true
@@ -272,6 +276,15 @@ func execute(sc *Scenario, ch ssim.Chooser, keepTrace bool) *Exec {
 		os.Chdir("/")
 		os.RemoveAll(root)
 	}()
+	if sc.Cfg.Cwd != "" {
+		x.root = root + "/" + sc.Cfg.Cwd
+		if err := os.Mkdir(x.root, 0o755); err != nil {
+			ssim.Fatal("mkdir cwd: %v", err)
+		}
+		if err := os.Chdir(x.root); err != nil {
+			ssim.Fatal("chdir cwd: %v", err)
+		}
+	}
 	verifSetRecurse(sc.Cfg.Recurse)
 	x.FDsBefore = countFDs()
 	fdsBefore := fdTable()
